@@ -32,6 +32,24 @@ ALPHABET = ["'", '"', "\\", "\n", "\t", "\r", "\x00", "\x07", "\x1b", "\x7f", " 
             "Ā", " ", " ", "​", "‎", " ", " ", "　", "﻿", "", "", "퟿", "𐀀", "𝄞", "😀", "󠀁", "󰀀", "\U0010ffff", "͸", "﷐", "￾"]
 
 
+def _boundaries():
+    """Code points next to every numeric boundary an escape writer can branch on: powers of two, plane starts/ends,
+    the surrogate gap, the per-plane noncharacters and U+FDD0..U+FDEF."""
+    out = set()
+    for k in range(0, 21):
+        out.update(range(max(0, 2 ** k - 2), 2 ** k + 3))
+    for plane in range(0, 17):
+        out.update(range(max(0, plane * 0x10000 - 3), plane * 0x10000 + 3))
+    out.update(range(0xD7F0, 0xD800))
+    out.update(range(0xE000, 0xE010))
+    out.update(range(0xFDC0, 0xFE00))
+    out.update(range(0x10FFF0, 0x110000))
+    return sorted(c for c in out if c < 0x110000 and not (0xD800 <= c <= 0xDFFF))
+
+
+BOUNDARY = _boundaries()
+
+
 def q(s):
     return s.encode("utf-8", "surrogatepass").hex()
 
@@ -161,8 +179,9 @@ def workload(res):
     start = 0 if thorough else res.seed % 23
     cps = [c for c in range(start, 0x110000, step) if not (0xD800 <= c <= 0xDFFF)]
     if not thorough:
-        cps = sorted(set(cps) | set(range(0, 0x3000)))
+        cps = sorted(set(cps) | set(range(0, 0x3000)) | set(BOUNDARY))
     S += [chr(c) for c in cps]
+    S += [a + chr(c) + b for c in BOUNDARY for a, b in (("a", ""), ("", "'"), ("\\", "\""))]
     S += [a + b for a in ALPHABET for b in ALPHABET]
     pool = ALPHABET + [chr(rng.randrange(0x20, 0x7f)) for _ in range(30)]
     for _ in range(20000 if thorough else 3000):
